@@ -55,6 +55,22 @@ class AppSubError(ApplicationError):
     """an application error class of its own, registered on the callee, raised with more specific URIs"""
 
 
+class RedefinedError(Exception):
+    """made known to the session twice: the later definition replaces the earlier one"""
+
+    def __init__(self, *args, **kwargs):
+        Exception.__init__(self, *args)
+        self.kwargs = kwargs
+
+
+class FixedUriError(ApplicationError):
+    """an application error class with a URI of its own (the pattern of the library's TypeCheckError): raised and
+    re-constructed from the arguments alone"""
+
+    def __init__(self, *args, **kwargs):
+        ApplicationError.__init__(self, "com.myapp.error.fixed", *args, **kwargs)
+
+
 class UndefinedError(Exception):
     def __init__(self, *args, **kwargs):
         Exception.__init__(self, *args)
@@ -117,23 +133,29 @@ def one(kind, reg, tb, sername, shape, uri_app):
     caller, rt = joined()
     callee.traceback_app = tb
     uris = {"decorated": "com.myapp.error.decorated", "defined": "com.myapp.error.defined", "definedsub": "com.myapp.error.definedsub",
-            "decorated2": "com.myapp.error.dual.legacy"}          # (the decorator nearest to the class is applied first)
+            "decorated2": "com.myapp.error.dual.legacy",          # (the decorator nearest to the class is applied first)
+            "redefined": "com.myapp.error.redefined.now"}
     callee.define(DecoratedError)
     callee.define(DualError)
     callee.define(DefinedError, "com.myapp.error.defined")
     callee.define(DefinedSubError, "com.myapp.error.definedsub")      # after its base class
+    callee.define(RedefinedError, "com.myapp.error.redefined.before")
+    callee.define(RedefinedError, "com.myapp.error.redefined.now")
     if kind == "appsub":
         callee.define(AppSubError, "com.myapp.error.appsub")
     cls = {"app": None, "decorated": DecoratedError, "defined": DefinedError, "undefined": UndefinedError,
            "definedsub": DefinedSubError, "undefsub": UndefSubError, "appsub": AppSubError, "appsubundef": AppSubError,
-           "decorated2": DualError}[kind]
-    carried = kind in ("app", "appsub", "appsubundef")
+           "decorated2": DualError, "redefined": RedefinedError, "appfixed": FixedUriError}[kind]
+    carried = kind in ("app", "appsub", "appsubundef", "appfixed")
+    if kind == "appfixed":
+        uri_app = "com.myapp.error.fixed"
     if kind in ("appsub", "appsubundef"):
         uri_app = "com.myapp.error.appsub.detail"
     expected_uri = uri_app if carried else uris.get(kind, "wamp.error.runtime_error")
     regcls = None
     if reg == "same":
-        regcls = {"decorated": DecoratedError, "defined": DefinedError, "definedsub": DefinedSubError, "decorated2": DualError}[kind]
+        regcls = {"decorated": DecoratedError, "defined": DefinedError, "definedsub": DefinedSubError, "decorated2": DualError,
+                  "redefined": RedefinedError, "appfixed": FixedUriError}[kind]
         if kind in ("decorated", "decorated2"):
             caller.define(regcls)
         else:
@@ -144,7 +166,7 @@ def one(kind, reg, tb, sername, shape, uri_app):
     def endpoint(*a, **kw):
         if kind == "app":
             raise ApplicationError(uri_app, *args, **kwargs)
-        if carried:
+        if carried and kind != "appfixed":
             raise cls(uri_app, *args, **kwargs)
         raise cls(*args, **kwargs)
     esc = ""
@@ -206,7 +228,7 @@ def main():
     inp = driver_in()
     rng = random.Random(int(os.environ.get("VERIF_SEED", "0")) * 31 + 7)
     traces = []
-    for kind in ("app", "decorated", "decorated2", "defined", "undefined", "definedsub", "undefsub", "appsub", "appsubundef"):
+    for kind in ("app", "decorated", "decorated2", "defined", "undefined", "definedsub", "undefsub", "appsub", "appsubundef", "redefined", "appfixed"):
         for reg in ("same", "badctor", "none"):
             if reg == "same" and kind in ("app", "undefined", "undefsub", "appsub", "appsubundef"):
                 continue      # no class of this driver is registered for an arbitrary / the runtime-error URI
